@@ -11,6 +11,8 @@ python3 tools/rs2lean3.py
 python3 tools/rs2lean_eval.py
 python3 tools/rs2lean_tt.py
 python3 tools/rs2lean_text.py
+python3 tools/rs2lean_search.py
+python3 tools/rs2lean_book.py
 [ -f tools/gen_c09.py ] && python3 tools/gen_c09.py || true
 (cd lean && lake build Wee weedriver)
 (cd harness && cargo build && cargo build --release)
